@@ -576,6 +576,25 @@ func (x *fnCtx) callSiteClauses(st *State, fr *Frame, in ssa.Instruction, c *ssa
 		if !cl.appliesTo(x.eng.prop) || !matchCallee(cl.Arg, name) {
 			continue
 		}
+		if cl.Loop != 0 && fr.isTop {
+			inLoop := func(n int) bool {
+				return n >= 1 && n <= len(x.hdrList) && x.loopBlocks(x.hdrList[n-1])[in.Block()]
+			}
+			if cl.Loop > 0 && !inLoop(cl.Loop) {
+				continue
+			}
+			if cl.Loop < 0 {
+				any := false
+				for n := 1; n <= len(x.hdrList); n++ {
+					if inLoop(n) {
+						any = true
+					}
+				}
+				if any {
+					continue
+				}
+			}
+		}
 		names := map[string]nameBind{}
 		for k, v := range fr.names {
 			names[k] = v
